@@ -35,6 +35,8 @@ type Obligation struct {
 	Folded  bool // decided by constant folding
 	negCond *Term
 	members []*Obligation
+	RawScript string
+	RawNames  []string
 	// results
 	Status  string // unsat | sat | unknown | error | folded-true | folded-false
 	Solver  string
@@ -112,6 +114,7 @@ type Exec struct {
 	assumptions map[string]bool
 	thorough    bool
 	cur         ssa.Instruction
+	conc        *concState
 	lastTrace   time.Time
 	deadline    time.Time
 	notes       []string
@@ -662,8 +665,13 @@ func (x *Exec) tryMerge(a Result, ca *Term, b Result, cb *Term) (Result, bool) {
 			return a, false
 		}
 	}
-	if len(sa.trace) != len(sb.trace) {
+	if len(sa.trace) != len(sb.trace) || len(sa.events) != len(sb.events) {
 		return a, false
+	}
+	for i := range sa.events {
+		if sa.events[i].Kind != sb.events[i].Kind || sa.events[i].Loc != sb.events[i].Loc || sa.events[i].Val != sb.events[i].Val {
+			return a, false
+		}
 	}
 	for i := range sa.trace {
 		if sa.trace[i] != sb.trace[i] {
@@ -848,6 +856,9 @@ func (x *Exec) step(st *State, fr *Frame, in ssa.Instruction) bool {
 			if !x.checkSymPath(st, p, t) {
 				return false
 			}
+			if x.conc != nil {
+				x.concPlain(st, "R", p, t)
+			}
 			fr.locals[t] = x.load(st, p)
 		case token.NOT:
 			fr.locals[t] = x.tf.Not(xv.(*Term))
@@ -960,6 +971,9 @@ func (x *Exec) step(st *State, fr *Frame, in ssa.Instruction) bool {
 			x.addObl(st, "panic", "nil pointer dereference (store)", x.pos(t), x.tf.False)
 			return false
 		}
+		if x.conc != nil {
+			x.concPlain(st, "W", p, t)
+		}
 		x.store(st, p, x.get(st, fr, t.Val))
 	case *ssa.MakeMap:
 		id := st.alloc(&MapObj{})
@@ -969,6 +983,9 @@ func (x *Exec) step(st *State, fr *Frame, in ssa.Instruction) bool {
 		if m.Obj == 0 {
 			x.addObl(st, "panic", "assignment to entry in nil map", x.pos(t), x.tf.False)
 			return false
+		}
+		if x.conc != nil {
+			x.concPlain(st, "W", &PtrV{Obj: m.Obj}, t)
 		}
 		mo := st.heap[m.Obj].(*MapObj)
 		k := x.get(st, fr, t.Key)
@@ -995,6 +1012,9 @@ func (x *Exec) step(st *State, fr *Frame, in ssa.Instruction) bool {
 			var val Value
 			found := false
 			if a.Obj != 0 {
+				if x.conc != nil {
+					x.concPlain(st, "R", &PtrV{Obj: a.Obj}, t)
+				}
 				mo := st.heap[a.Obj].(*MapObj)
 				for i, kk := range mo.Keys {
 					if x.keyEq(kk, k, t) {
